@@ -124,6 +124,10 @@ def _iso_under_renaming(nz, code, ref):
     free = sorted(a for a in ref_atoms - code_known if "#" not in a)
     if not unk or len(unk) != len(free) or len(unk) > 6:
         return False
+    # only a wholesale re-spelling (none of the reference's quantities is recognised) can be a mere change of names; when the others are recognised and one
+    # is not, a known quantity has been replaced by something else (`people_latent` for `people_sensible`): that is a finding
+    if any("#" not in a for a in code_known & ref_atoms):
+        return False
 
     def rename(poly, m):
         t = {}
